@@ -795,7 +795,7 @@ func checkProc(prop, tier string, seed uint64, runsOverride int, keep bool) int 
 	}
 	findings := loadFindings()
 	seen := map[string]bool{}
-	exit, nViol := 0, 0
+	exit, nViol, unreplayed := 0, 0, 0
 	var knownLines []string
 	os.MkdirAll(filepath.Join(verifDir, "replays"), 0755)
 	for _, f := range st.Failing {
@@ -851,13 +851,23 @@ func checkProc(prop, tier string, seed uint64, runsOverride int, keep bool) int 
 		}
 		fmt.Print(ro)
 		if code != 1 {
-			fmt.Fprintf(os.Stderr, "simcheck: the violation (%s) does not replay (exit %d): infrastructure trouble, not a verdict\n", f.Violation.Detail, code)
-			return 2
+			// real processes: the micro-timing inside a forced order is the
+			// kernel's. An observation that does not come back on replay is not
+			// reported; it only matters (exit 2) if none of the observed
+			// violations reproduces.
+			fmt.Fprintf(os.Stderr, "simcheck: an observed violation (class %s: %s) did not reproduce on replay (exit %d) and is not reported\n", f.Violation.Class, f.Violation.Detail, code)
+			os.Remove(path)
+			unreplayed++
+			continue
 		}
 		nViol++
 		exit = 1
 		fmt.Printf("violation: class=%s %s\n", f.Violation.Class, f.Violation.Detail)
 		fmt.Printf("VIOLATION property=%s replay=%s\n", prop, path)
+	}
+	if nViol == 0 && unreplayed > 0 {
+		fmt.Fprintf(os.Stderr, "simcheck: %d observed violation(s), none of which replays: infrastructure trouble, not a verdict\n", unreplayed)
+		return 2
 	}
 	for _, l := range knownLines {
 		fmt.Println(l)
